@@ -649,3 +649,100 @@ theorem append_insert {α} (l v : List α) :
   simp [apply, insertPos]
 
 end C07
+
+/-! ### observations other than the text commute with decoding -/
+namespace C07
+open Base Py
+
+theorem zipEq_map {α β} [DecidableEq α] [DecidableEq β] (f : α → β) (hf : Function.Injective f) :
+    ∀ (l s : List α), ((l.map f).zip (s.map f)).map (fun p => decide (p.1 = p.2)) = (l.zip s).map (fun p => decide (p.1 = p.2)) := by
+  intro l
+  induction l with
+  | nil => intro s; simp
+  | cons x xs ih =>
+    intro s
+    cases s with
+    | nil => simp
+    | cons y ys =>
+      simp only [List.map_cons, List.zip_cons_cons, ih ys, List.cons.injEq, and_true]
+      by_cases h : x = y
+      · simp [h]
+      · have : f x ≠ f y := fun hh => h (hf hh)
+        simp [h, this]
+
+/-- `v == "text"` / `v == other` computed on codes equals the comparison of the decoded texts -/
+theorem eqStr_map {α β} [DecidableEq α] [DecidableEq β] (f : α → β) (hf : Function.Injective f) (s : List α) (v : Val α) :
+    eqStr (s.map f) (v.map f) = eqStr s v := by
+  cases v with
+  | flat l =>
+    simp only [Val.map, eqStr, List.length_map]
+    split
+    · rw [zipEq_map f hf]
+    · rfl
+  | rag r => rfl
+  | scalar c => rfl
+
+theorem whereZip_map {α β} (f : α → β) : ∀ (m : List Bool) (a b : List α),
+    (m.zip ((a.map f).zip (b.map f))).map (fun p => if p.1 then p.2.1 else p.2.2) =
+      ((m.zip (a.zip b)).map (fun p => if p.1 then p.2.1 else p.2.2)).map f := by
+  intro m
+  induction m with
+  | nil => intro a b; simp
+  | cons c cs ih =>
+    intro a b
+    cases a with
+    | nil => simp
+    | cons x xs =>
+      cases b with
+      | nil => simp
+      | cons y ys =>
+        simp only [List.map_cons, List.zip_cons_cons, List.cons.injEq]
+        exact ⟨by cases c <;> simp, ih xs ys⟩
+
+theorem whereFlat_map {α β} (f : α → β) (m : List Bool) (a b : List α) :
+    whereFlat m (a.map f) (b.map f) = (whereFlat m a b).map (List.map f) := by
+  unfold whereFlat
+  simp only [List.length_map]
+  split
+  · simp only [Option.map_some, Option.some.injEq]
+    exact whereZip_map f m a b
+  · rfl
+
+theorem vlen_map {α β} (f : α → β) (v : Val α) : vlen (v.map f) = vlen v := by
+  cases v <;> simp [Val.map, vlen]
+
+/-- **C07.observe_natural** — every modelled observation of a result other than its text (`== string/array`,
+`!= char`, `np.where` between two arrays, `len`) computed on the codes is the observation of the decoded
+characters: booleans and lengths are equal, `np.where` text decodes to the `where` of the texts. -/
+theorem observe_natural {α β} [DecidableEq α] [DecidableEq β] (f : α → β) (hf : Function.Injective f)
+    (o : Obs α) (v : Val α) : observe (o.map f) (v.map f) = (observe o v).map (ObsRes.map f) := by
+  cases o with
+  | eqStr s =>
+    simp only [Obs.map, observe, eqStr_map f hf]
+    cases eqStr s v <;> simp [ObsRes.map]
+  | neChar c =>
+    simp only [Obs.map, observe, neChar, eq_char f hf, Option.map_some, ObsRes.map]
+  | whereWith m w =>
+    cases v with
+    | flat l =>
+      simp only [Obs.map, Val.map, observe, whereFlat_map]
+      cases whereFlat m l w <;> simp [ObsRes.map]
+    | rag r => rfl
+    | scalar c => rfl
+  | len =>
+    simp only [Obs.map, observe, vlen_map]
+    cases vlen v <;> simp [ObsRes.map]
+
+/-- programs followed by an observation: the whole pipeline commutes with decoding -/
+theorem programs_observe {α β} [DecidableEq α] [DecidableEq β] (f : α → β) (hf : Function.Injective f)
+    (ops : List (Op α)) (o : Obs α) (v : Val α) :
+    (run (v.map f) (ops.map (Op.map f))).bind (observe (o.map f)) = ((run v ops).bind (observe o)).map (ObsRes.map f) := by
+  rw [programs f ops v]
+  cases run v ops with
+  | none => rfl
+  | some r => simp [observe_natural f hf]
+
+example : observe (.whereWith [true, false, true] [9, 9, 9]) (Val.flat [1, 2, 3]) = some (.text [1, 9, 3]) := by decide
+example : observe (.eqStr [1, 5, 3]) (Val.flat [1, 2, 3]) = some (.boolList [true, false, true]) := by decide
+
+end C07
